@@ -44,3 +44,4 @@ CFG['level_text'] += ' A quarter of the go.mod rounds first change the go versio
 CFG['level_text'] += ' Half of the multi-round cases continue on the structure of the previous round instead of re-parsing its output.'
 CFG['level_text'] += ' Use directories and replacement targets include paths ending in `//`.'
 CFG['level_text'] += ' A third of the rounds withdraw one to three existing exclusions (DropExclude, no Cleanup) right before the bulk call, so the blocks being sorted still hold dead lines.'
+CFG['level_text'] += ' The version pool has two releases of equal length whose string order differs from their version order (v1.10.0, v1.9.10).'
